@@ -59,6 +59,8 @@ def strip_identity(B):
     """np.histogram(data, B)[1] returns the bin edges it was given"""
     if B[0] == 'item' and B[2] == 1 and B[1][0] == 'call' and B[1][1] == 'np.histogram' and len(B[1][2]) >= 2:
         return B[1][2][1]
+    if B[0] == 'item' and B[2] == 1 and B[1][0] == 'call' and B[1][1] == 'np.histogram' and len(B[1][2]) == 1 and dict(B[1][3]).get('bins') is not None:
+        return dict(B[1][3])['bins']          # np.histogram(data, bins=B)
     if B[0] == 'call' and B[1] in ('copy.copy', 'np.array', 'np.copy', 'copy.deepcopy') and len(B[2]) == 1:
         return B
     return B
